@@ -9,6 +9,7 @@ R-ADD-ALL-LOCATIONS  ResultSet.add_result inserts under (rule_id, loc.file) for 
 from __future__ import annotations
 
 import ast
+import re
 
 from ..model import AnalysisError, FuncInfo, call_name, dotted_name, last_attr, names_in, unparse, walk_no_nested
 
@@ -288,6 +289,66 @@ def rule_location_file_verbatim(ctx, rep, rule_id="R-LOCATION-FILE-VERBATIM"):
                               "whose names that rewriting changes are keyed under a path no analysed file has" if not ok else "")
     if n < 3:
         raise AnalysisError(f"only {n} Location constructions with file= found in the SARIF / DefectDojo readers")
+
+
+def rule_results_all_added(ctx, rep, rule_id="R-RESULTS-ALL-ADDED"):
+    """Shared by C06 / C12."""
+    rep.rule(
+        rule_id,
+        "in the SARIF and DefectDojo result-set readers every element of the document's result list reaches add_result: the call is not under "
+        "a condition on the individual result (only on the run it belongs to: the tool detector).  A per-result filter (`suppressions` present, "
+        "a level, a kind) drops findings the file reports as open -- SARIF has no such notion short of an *accepted* suppression -- and the "
+        "sites they name are silently left unfixed.  (Sonar's status filter is the one documented per-result condition: R-OPEN-STATUS.)",
+        min_instances=3,
+    )
+    n = 0
+    fam = ctx.prog.all_subclasses("codemodder.result.ResultSet")
+    for cq in sorted(fam):
+        c = ctx.prog.classes[cq]
+        if cq.startswith("core_codemods.sonar."):
+            continue
+        for m in c.methods.values():
+            if m.absorbed or m.name not in ("from_sarif", "from_json"):
+                continue
+            fa = ctx.flow(m)
+            adds = [x for x in walk_no_nested(m.node) if isinstance(x, ast.Call) and last_attr(x.func) == "add_result"]
+            if not adds:
+                continue
+            pm = ctx.parents(m)
+            for a in adds:
+                # the loop variable of the innermost enclosing loop is the per-result element
+                cur, loop = pm.get(id(a)), None
+                while cur is not None and cur is not m.node:
+                    if isinstance(cur, ast.For):
+                        loop = cur
+                        break
+                    cur = pm.get(id(cur))
+                if loop is None:
+                    continue
+                n += 1
+                elem = {x.id for x in ast.walk(loop.target) if isinstance(x, ast.Name)}
+                # names derived from the element inside the loop body (sarif_result = Result.from_sarif(result, ...))
+                changed = True
+                while changed:
+                    changed = False
+                    for st in ast.walk(loop):
+                        if isinstance(st, ast.Assign) and names_in(st.value) & elem:
+                            for t in st.targets:
+                                if isinstance(t, ast.Name) and t.id not in elem:
+                                    elem.add(t.id)
+                                    changed = True
+                # conditions established inside the loop body on the way to the call
+                inner = fa.must_at(a) - fa.must_at(loop)
+                cond = [txt for _pol, txt in inner if not txt.startswith(("EV:", "ITER:", "MATCH:")) and any(re.search(rf"(?<![A-Za-z0-9_]){re.escape(v)}(?![A-Za-z0-9_])", txt) for v in elem)]
+                # ...and skipped iterations: a `continue` inside the loop under a condition on the element
+                skips = [x for x in ast.walk(loop) if isinstance(x, ast.Continue)]
+                for sk in skips:
+                    st = fa.must_at(sk) - fa.must_at(loop) if fa.state_at(sk) is not None else frozenset()
+                    cond += [txt for _pol, txt in st if not txt.startswith(("EV:", "ITER:", "MATCH:")) and any(re.search(rf"(?<![A-Za-z0-9_]){re.escape(v)}(?![A-Za-z0-9_])", txt) for v in elem)]
+                rep.check(rule_id, m.qname, m.loc(a), not cond, "every-result-added",
+                          f"add_result is reached only under `{cond[0][:60]}`: results of the file that do not satisfy it never reach any codemod" if cond else "")
+    if n < 3:
+        raise AnalysisError(f"only {n} result-list loops with add_result found in the SARIF / DefectDojo readers")
 
 
 def rule_add_all_locations(ctx, rep):
@@ -604,6 +665,7 @@ def check(ctx, rep):
     rule_or_precedence(ctx, rep)
     rule_reader_shape(ctx, rep)
     rule_location_file_verbatim(ctx, rep)
+    rule_results_all_added(ctx, rep)
     rule_add_all_locations(ctx, rep)
     rule_merge_no_alias(ctx, rep)
     rule_sonar_component(ctx, rep)
